@@ -44,6 +44,8 @@ func main() {
 	selftest := flag.Bool("selftest", false, "run the mutant self-test for the property (or all)")
 	list := flag.Bool("list", false, "list registered properties")
 	dump := flag.Bool("dump", false, "print every obligation")
+	viewOf := flag.String("view", "", "debug: print the inlined view of the functions whose name ends with this")
+	viewAll := flag.Bool("viewcheck", false, "debug: build the inlined view of every universe function and run the SSA sanity check on it")
 	flag.Parse()
 
 	if *list {
@@ -96,6 +98,25 @@ func main() {
 	exit := 0
 	t0 := time.Now()
 	prog, err := Load(*repo, cfgLinuxAMD64, nil)
+	if err == nil && *viewOf != "" {
+		prog.setViews(true)
+		dumpView(prog, *viewOf)
+		os.Exit(0)
+	}
+	if err == nil && *viewAll {
+		prog.setViews(true)
+		n := 0
+		for _, f := range prog.UFuncs() {
+			if v := prog.view(f); v != f {
+				n++
+			}
+		}
+		fmt.Printf("views built for %d of %d functions; %d failed the sanity check\n", n, len(prog.UFuncs()), len(prog.viewFailures))
+		for _, l := range prog.viewFailures {
+			fmt.Println("  " + l)
+		}
+		os.Exit(0)
+	}
 	if err != nil {
 		// a tree that does not load decides nothing: every requested property fails
 		for _, id := range props {
@@ -168,7 +189,33 @@ func main() {
 	os.Exit(exit)
 }
 
+// runProp decides a property on the code as written; if some obligation is not discharged there, it decides it
+// again on the inlined views (views.go) - an equivalent program in which small unexported helpers are folded
+// into their callers - and reports that result when every obligation is discharged on it. A verdict reached
+// on either representation is a verdict about the same behaviour; the second one only removes the dependence
+// of the path rules on how functions happen to be split up.
 func runProp(p *Program, id, tier string) (r *Result) {
+	p.setViews(false)
+	ra := runPropOnce(p, id, tier)
+	if len(violKeys(ra)) == 0 || os.Getenv("VERIF_NOVIEWS") != "" {
+		return ra
+	}
+	p.setViews(true)
+	rb := runPropOnce(p, id, tier)
+	p.setViews(false)
+	if len(violKeys(rb)) == 0 {
+		rb.Notes = append(rb.Notes, fmt.Sprintf("decided on inlined views: on the functions as written %d obligation(s) were not discharged because a rule's subject is spread over helper functions; with those helpers folded into their callers every obligation is discharged", len(violKeys(ra))))
+		rb.Analysed["representation"] = "inlined views (helpers folded into callers)"
+		return rb
+	}
+	if os.Getenv("VERIF_SHOWVIEWS") != "" {
+		return rb
+	}
+	ra.Notes = append(ra.Notes, fmt.Sprintf("also evaluated on inlined views: %d obligation(s) not discharged there", len(violKeys(rb))))
+	return ra
+}
+
+func runPropOnce(p *Program, id, tier string) (r *Result) {
 	defer func() {
 		if e := recover(); e != nil {
 			// a panic in a rule is a failed check, not a pass
